@@ -108,7 +108,7 @@ func silenceKlog() {
 func main() {
 	silenceKlog()
 	rig.Main("C05", func(c *rig.Ctx) {
-		c.SetRule("hist: history of 6-45 ops (Sync with 0-3 schemas of kinds MaxInflight(0-4, rarely -1/large)/TokenBucket/Exempt/empty/global variants, request arrives for (cluster, name), request finishes) over 2 clusters x 3 names on the real NewUpstreamLimiter, local and remote-without-clientset mode; distinct = distinct canonical op list; non-trivial = a max-in-flight schema refused or was reconfigured (resize / type change / delete / re-add) while requests admitted under it were unfinished. " +
+		c.SetRule("hist: history of 6-45 ops (Sync with 0-3 schemas of kinds MaxInflight(0-4, rarely -1/large)/TokenBucket/Exempt/empty/global variants, request arrives for (cluster, name), request finishes) over 2 clusters x 3 names (half of the histories: look-alike names - case variants, prefixes, spaces, the default name, empty-looking names - configured side by side) on the real NewUpstreamLimiter, local and remote-without-clientset mode; distinct = distinct canonical op list; non-trivial = a max-in-flight schema refused or was reconfigured (resize / type change / delete / re-add) while requests admitted under it were unfinished. " +
 			"sched: schedule of 8-70 events over 2-4 threads and resizes replayed step by step on the real instrumented counter; non-trivial = at least one preemption inside a call. " +
 			"fsched: schedule of 10-80 events over 2-4 request loops (lookup, TryAcquire, Release) and Syncs (resize, type change, delete, re-add) replayed step by step through the whole stack; non-trivial = at least two Syncs. " +
 			"stress: real goroutines on the real limiter (bare and through the whole stack with concurrent Syncs). serve: one request through the real dispatcher with a scripted way out.")
